@@ -100,10 +100,9 @@ pub fn jobs_for(prop: &str) -> Vec<Job> {
             let mut v = seq_all(Focus::General, 1);
             // compare-and-append / found-gone under overlap: the scheduled batches
             v.extend(conc_all());
-            if prop == "C02" {
-                // uploads that break off mid-body must not be stored
-                v.extend(wire_all().into_iter().filter(|j| j.name == "wire-mem"));
-            }
+            // C02: uploads that break off mid-body must not be stored; C08: another spelling of a
+            // parent id must not turn found into not-found / gone
+            v.extend(wire_all().into_iter().filter(|j| j.name == "wire-mem"));
             // exhaustive small scope: every (chain length 0..8, base, snapshot?, class of parent)
             let n = crate::seq::parentgrid_cases().len() as u64;
             for (name, b, e) in [("parentgrid-mem-lib", Backend::Memory, Entry::Lib), ("parentgrid-mem-http", Backend::Memory, Entry::Http), ("parentgrid-sqlite-lib", Backend::Sqlite, Entry::Lib), ("parentgrid-sqlite-http", Backend::Sqlite, Entry::Http)] {
